@@ -314,3 +314,19 @@ class CompositeExchangeMove(CompositeMove[ExchangeMove]):
             del context.atoms[deleted_indices]
 
             return True
+
+    def to_dict(self) -> dict[str, Any]:
+        """
+        Convert the `CompositeExchangeMove` object to a dictionary.
+
+        Returns
+        -------
+        dict[str, Any]
+            A dictionary representation of the `CompositeExchangeMove` object.
+        """
+        dictionary = super().to_dict()
+        dictionary.setdefault("attributes", {})[
+            "bias_towards_insert"
+        ] = self.bias_towards_insert
+
+        return dictionary
